@@ -49,7 +49,7 @@ var nBase = len(hkinds)
 
 func init() { hkinds = append(hkinds, xkinds...) }
 
-var pmodes = []string{"none", "ok", "fail", "unencodable", "timeout"}
+var pmodes = []string{"none", "ok", "fail", "unencodable", "timeout", "late"}
 
 type workload struct {
 	H        []int `json:"handlers"`
@@ -115,6 +115,19 @@ func (s countStore) Append(ctx context.Context, ev *eventbus.Event) (eventbus.Of
 	}
 	s.rec.Add("append", r, 0, "")
 	return off, err
+}
+
+// lateStore ignores its context: it outlives the persistence timeout and then succeeds.
+// That append did not fail, whatever the deadline did meanwhile.
+type lateStore struct{ mem *eventbus.MemoryStore }
+
+func (s lateStore) Append(ctx context.Context, ev *eventbus.Event) (eventbus.Offset, error) {
+	vrt.Recv(ctx.Done()) // the 1 ms persistence timeout expires (virtual time) ...
+	vrt.Sleep(time.Millisecond)
+	return s.mem.Append(context.Background(), ev) // ... and the write goes through all the same
+}
+func (s lateStore) Read(ctx context.Context, from eventbus.Offset, limit int) ([]*eventbus.StoredEvent, eventbus.Offset, error) {
+	return s.mem.Read(ctx, from, limit)
 }
 
 // ---- recording observer
@@ -219,6 +232,8 @@ func (in *inst) Body() {
 		opts = append(opts, eventbus.WithStore(countStore{failStore{mem}, &in.rec}))
 	case 4:
 		opts = append(opts, eventbus.WithStore(countStore{hangStore{mem}, &in.rec}), eventbus.WithPersistenceTimeout(time.Millisecond))
+	case 5:
+		opts = append(opts, eventbus.WithStore(countStore{lateStore{mem}, &in.rec}), eventbus.WithPersistenceTimeout(time.Millisecond))
 	}
 	if w.Observer == 0 {
 		opts = append(opts, eventbus.WithObservability(recObs{&in.rec, &in.n}))
@@ -323,8 +338,14 @@ func (in *inst) Body() {
 			pub()
 		}
 	}
-	vrt.Join()
+	if w.TwoPublishers || w.CancelRace {
+		vrt.Join() // the publishers are tasks: their publishes must have returned before Wait is asked
+	}
+	// (no Join before this Wait otherwise: Join would wait for the asynchronous deliveries
+	// itself and Wait would have nothing left to wait for)
 	bus.Wait()
+	in.rec.Add("wret", 0, 0, "")
+	vrt.Join()
 }
 
 func (in *inst) Trace() string   { return in.rec.String() }
@@ -366,7 +387,7 @@ func (in *inst) Check(res *vrt.Result) []vrt.Violation {
 	if !w.CancelRace && !w.Cancel {
 		wantA, wantF := 0, 0
 		switch w.Persist {
-		case 1:
+		case 1, 5:
 			wantA = publishes
 		case 2, 4:
 			wantA, wantF = publishes, publishes
@@ -384,6 +405,19 @@ func (in *inst) Check(res *vrt.Result) []vrt.Violation {
 				}
 			}
 			return n
+		}
+		// when Wait returns, every callback pair of the work it waited for is closed
+		wret := -1
+		for i, e := range evs {
+			if e.K == "wret" {
+				wret = i
+			}
+		}
+		for i, e := range evs {
+			if wret >= 0 && i > wret && (e.K == "hs" || e.K == "hc" || e.K == "es" || e.K == "ec" || e.K == "ps" || e.K == "pc") {
+				bad("after-wait", fmt.Sprintf("an observability callback (%s) of work published before Wait was called ran after Wait had returned", map[string]string{"hs": "handler start", "hc": "handler complete", "es": "persist start", "ec": "persist complete", "ps": "publish start", "pc": "publish complete"}[e.K]))
+				break
+			}
 		}
 		if count("ps") != publishes || count("pc") != publishes {
 			bad("publish-pairs", fmt.Sprintf("publish start/complete called %d/%d times for %d publishes", count("ps"), count("pc"), publishes))
